@@ -86,7 +86,11 @@ where
   type Unsub = Subject::Unsub;
 
   fn actual_subscribe(self, mut observer: O) -> Self::Unsub {
-    observer.next(self.value.rc_deref().clone());
+    // release the value cell before calling out: a new subscriber that
+    // subscribes to, peeks at or emits into this subject again from inside its
+    // first `next` would otherwise find the cell still held
+    let value = self.value.rc_deref().clone();
+    observer.next(value);
     self.subject.actual_subscribe(observer)
   }
 }
